@@ -704,11 +704,12 @@ PROPERTIES = {
             "and nothing else mutates the buffer; (b) token text can change only in Token::set_content, called only by the four reviewed normalisers; tokens are constructed only "
             "by the lexer path; no whole-token overwrite/swap; the only sequence operations on token vectors are iteration/get/len, push in the lexer and retain in "
             "delete_marked_tokens; (c) no TokenRemover exists or is registered and deletion is guarded by any_marked(). "
-            "Not decided: that the normalisers keep every character of the text they rebuild (string arithmetic); lexer value-level losslessness (see C13).", []),
+            "(e) what the lexer counts as a token's leading whitespace is exactly the blank set; (f) symbolic slice algebra: format_line_comment and format_compiler_directive append consecutive sub-slices of the token's own text covering it completely, plus blanks / an ASCII case map / a whole copy / truncation to trim_ascii_end. "
+            "Not decided: that try_rewrite_string keeps every character of every pushed line (loop invariant); lexer value-level losslessness (see C13).", []),
     "C07": (check_c07,
             "Structural clauses of C07: (a) the only doors to `&mut Token` in FormattedTokens go through map_tok_ignored, whose decision table is Err(TokenIgnored) iff is_ignored; "
             "(b) the ignored flag is constructor-only, marks are never removed, the marker the ignorers fill is the one FormattedTokens is built from, before any formatter runs; "
             "(c) reconstruct's ignored arm pushes only the safety-net newline and the original leading whitespace (on every path) and reads no counter; (d) both ignorers are "
             "registered, every token of every AsmInstruction line is marked, the wrapper skips such lines; (e) whole-line voiding requires all tokens ignored; "
-            "(f) toggle recognition constants and grammar. Not decided: region extent as a function of comment text beyond these constants.", []),
+            "(f) toggle recognition constants and grammar; (g) every logical line finished in parse_asm_instructions is typed AsmInstruction on every path. Not decided: region extent as a function of comment text beyond these constants.", []),
 }
